@@ -32,6 +32,7 @@ instance : DecidableEq Val := fun a b =>
   else isFalse (fun e => h ((Val.beq_iff a b).2 e))
 
 deriving instance DecidableEq for Except
+deriving instance DecidableEq for Item
 
 /-! ## dictionary primitives -/
 
